@@ -54,6 +54,7 @@ fn struct_names(ty: Ty) -> &'static [&'static str] {
         Ty::TopEnum => &["C", "N"],
         Ty::Tree => &["", "child"],
         Ty::Rows => &["", "row", "cell", "opt", "last"],
+        Ty::MixedTuples => &["", "S"],
     }
 }
 
@@ -70,6 +71,7 @@ fn elemonly_names(ty: Ty) -> &'static [&'static str] {
         Ty::TopEnum => &["C", "N"],
         Ty::Tree => &["", "child"],
         Ty::Rows => &["", "row", "cell", "opt", "last"],
+        Ty::MixedTuples => &["S"],
     }
 }
 
